@@ -14,6 +14,17 @@ pub type Spec = (String, Vec<(String, String)>);
 /// Reference parser, written from the statement: split at unescaped ','; one trailing comma is ignored; in an
 /// argument the first unescaped '=' splits key and value and a second one rejects; '\,' and '\=' are literal
 /// ',' and '='; any other backslash is literal; components are trimmed; empty path / key / string rejects.
+/// White space as the Unicode property White_Space lists it (written out, not taken from the standard library).
+fn is_ws(c: char) -> bool {
+    matches!(c as u32, 0x09..=0x0D | 0x20 | 0x85 | 0xA0 | 0x1680 | 0x2000..=0x200A | 0x2028 | 0x2029 | 0x202F | 0x205F | 0x3000)
+}
+fn ws_trim(s: &str) -> String {
+    let v: Vec<char> = s.chars().collect();
+    let a = v.iter().position(|c| !is_ws(*c)).unwrap_or(v.len());
+    let b = v.iter().rposition(|c| !is_ws(*c)).map_or(a, |i| i + 1);
+    v[a..b].iter().collect()
+}
+
 pub fn ref_parse(s: &str) -> Result<Spec, ()> {
     if s.is_empty() {
         return Err(());
@@ -64,7 +75,7 @@ pub fn ref_parse(s: &str) -> Result<Spec, ()> {
             Tok::Comma => unreachable!(),
         })
         .collect();
-    let path = path.trim().to_string();
+    let path = ws_trim(&path);
     if path.is_empty() {
         return Err(());
     }
@@ -87,11 +98,11 @@ pub fn ref_parse(s: &str) -> Result<Spec, ()> {
                 Tok::Comma => unreachable!(),
             }
         }
-        let key = key.trim().to_string();
+        let key = ws_trim(&key);
         if key.is_empty() {
             return Err(());
         }
-        args.push((key, value.trim().to_string()));
+        args.push((key, ws_trim(&value)));
     }
     Ok((path, args))
 }
@@ -134,8 +145,14 @@ pub fn real_parse(specs: &[&str]) -> Result<RealOutcome, (String, String)> {
     guarded(|| {
         let mut argv: Vec<String> = vec!["slicec".into()];
         for s in specs {
-            argv.push("-G".into());
-            argv.push(s.to_string());
+            // (a value that starts with '-' has to be attached to the option, as with every command line: it is an
+            // option otherwise)
+            if s.starts_with('-') {
+                argv.push(format!("--generator={s}"));
+            } else {
+                argv.push("-G".into());
+                argv.push(s.to_string());
+            }
         }
         match SliceOptions::try_parse_from(argv) {
             Ok(o) => RealOutcome::Accepted(o.generators.iter().map(|p| (p.path.clone(), p.args.clone())).collect()),
@@ -610,9 +627,156 @@ impl Family for RejectedThroughBinary {
     }
 }
 
+
+// ------------------------------------------------------------------------------------------------------------
+// One character at a time through every role: no character but ',', '=' and the backslash before them is special,
+// letters keep their case, white space is what Unicode says it is.
+
+pub struct CharacterSweep {
+    chars: Vec<char>,
+}
+impl CharacterSweep {
+    pub fn new() -> Self {
+        let mut chars: Vec<char> = (1u32..=0x7F).filter_map(char::from_u32).collect();
+        for c in [
+            0x80u32, 0x85, 0xA0, 0xAD, 0xC9, 0xDF, 0x130, 0x131, 0x17F, 0x1C5, 0x301, 0x3A3, 0x3C2, 0x1680, 0x180E, 0x2000, 0x200A, 0x200B, 0x2028, 0x2029, 0x202F, 0x205F, 0x2060, 0x3000, 0xFB01, 0xFEFF, 0xFF0C, 0xFF1D, 0xFF3C, 0xFFFD, 0x1F600, 0x10FFFF,
+        ] {
+            chars.push(char::from_u32(c).unwrap());
+        }
+        CharacterSweep { chars }
+    }
+}
+impl Family for CharacterSweep {
+    fn name(&self) -> String {
+        format!("character-sweep/{} characters (all of U+0001..U+007F, upper-case and special-casing letters, every kind of white space and look-alike, full-width ',' '=' and backslash, astral characters) in 14 specification shapes (alone, inside / around path, key and value, after a backslash, next to each separator)", self.chars.len())
+    }
+    fn len(&self) -> u64 {
+        self.chars.len() as u64
+    }
+    fn describe(&self, idx: u64) -> Value {
+        json!({"character": format!("U+{:04X}", self.chars[idx as usize] as u32)})
+    }
+    fn run(&self, idx: u64) -> CaseOut {
+        let c = self.chars[idx as usize];
+        let mut out = CaseOut::new(hash_str(&format!("sweep{idx}")));
+        out.steps = 0;
+        out.validated = 1;
+        out.nontrivial = true;
+        let shapes = [
+            format!("{c}"),
+            format!("a{c}"),
+            format!("{c}a"),
+            format!("a{c}b"),
+            format!("a,{c}"),
+            format!("a,{c}={c}"),
+            format!("a,k={c}"),
+            format!("a,k{c}K=v{c}V"),
+            format!("\\{c},k"),
+            format!("a,\\{c}=x"),
+            format!("a{c},{c}k{c}={c}v{c},"),
+            format!("{c}a b{c},{c}k k{c}={c}v v{c}"),
+            format!("a,k=v{c},{c}"),
+            format!("a,{c}{c},k"),
+        ];
+        let mut classes = std::collections::BTreeSet::new();
+        for s in &shapes {
+            classes.insert(compare(s, &mut out, "c19/character-sweep"));
+        }
+        dedup(&mut out);
+        out.class = classes.into_iter().collect::<Vec<_>>().join("+");
+        out
+    }
+}
+fn dedup(out: &mut CaseOut) {
+    let mut seen = std::collections::HashSet::new();
+    out.violations.retain(|v| seen.insert(v.sig.clone()));
+}
+
+// ------------------------------------------------------------------------------------------------------------
+// The option in every form clap offers, with a source file before and after it: one -G takes one value.
+
+pub struct ArgvForms {
+    specs: Vec<String>,
+}
+impl ArgvForms {
+    pub fn new() -> Self {
+        let mut specs: Vec<String> = vec![];
+        for s in ["g", "g,k", "g,k=v", "g,k=v,", "g,K=V,Lang=CS", "dir/g x,a\\,b=c\\=d", " g , k = v ", "g,k=v,k=w", "./g,-k=-v", "g,é=日本"] {
+            specs.push(s.to_string());
+        }
+        ArgvForms { specs }
+    }
+}
+impl Family for ArgvForms {
+    fn name(&self) -> String {
+        format!("argv-forms/{} accepted specifications x 6 ways of writing the option (-G V, --generator V, --generator=V, -GV, -G=V; once, and twice with different values) x a source file before, after and on both sides", self.specs.len())
+    }
+    fn len(&self) -> u64 {
+        self.specs.len() as u64 * 6 * 3
+    }
+    fn describe(&self, idx: u64) -> Value {
+        json!({"argv": self.argv(idx).0})
+    }
+    fn run(&self, idx: u64) -> CaseOut {
+        let (argv, exp_gens, exp_sources) = self.argv(idx);
+        let mut out = CaseOut::new(hash_str(&format!("argvforms{idx}")));
+        out.validated = 1;
+        out.nontrivial = true;
+        let r = guarded(|| SliceOptions::try_parse_from(argv.clone()).map(|o| (o.generators.iter().map(|p| (p.path.clone(), p.args.clone())).collect::<Vec<Spec>>(), o.sources.clone())).map_err(|e| format!("{:?}", e.kind())));
+        match r {
+            Err((loc, msg)) => out.violate(format!("c19/argv-forms/panic@{loc}"), format!("{argv:?} panicked at {loc}: {msg}")),
+            Ok(Err(kind)) => out.violate("c19/argv-forms/rejected-valid", format!("{argv:?} was rejected ({kind}); expected generators {exp_gens:?} and sources {exp_sources:?}")),
+            Ok(Ok((gens, sources))) => {
+                if gens != exp_gens {
+                    out.violate("c19/argv-forms/parsed-differently", format!("{argv:?}: generators {gens:?}, expected {exp_gens:?}"));
+                }
+                if sources != exp_sources {
+                    out.violate("c19/argv-forms/sources-differ", format!("{argv:?}: sources {sources:?}, expected {exp_sources:?} (one -G takes exactly one value)"));
+                }
+            }
+        }
+        out.class = format!("form{}", (idx / 3) % 6);
+        out
+    }
+}
+impl ArgvForms {
+    fn argv(&self, idx: u64) -> (Vec<String>, Vec<Spec>, Vec<String>) {
+        let place = idx % 3;
+        let form = (idx / 3) % 6;
+        let si = (idx / 18) as usize;
+        let s = &self.specs[si];
+        let s2 = &self.specs[(si + 3) % self.specs.len()];
+        let mut argv: Vec<String> = vec!["slicec".into()];
+        let mut sources = vec![];
+        if place != 1 {
+            argv.push("before.slice".into());
+            sources.push("before.slice".to_string());
+        }
+        let mut gens = vec![ref_parse(s).expect("valid specification")];
+        match form {
+            0 => argv.extend(["-G".to_string(), s.clone()]),
+            1 => argv.extend(["--generator".to_string(), s.clone()]),
+            2 => argv.push(format!("--generator={s}")),
+            3 => argv.push(format!("-G{s}")),
+            4 => argv.push(format!("-G={s}")),
+            _ => {
+                argv.extend(["-G".to_string(), s.clone(), "--generator".to_string(), s2.clone()]);
+                gens.push(ref_parse(s2).expect("valid specification"));
+            }
+        }
+        if place != 0 {
+            argv.push("after.slice".into());
+            sources.push("after.slice".to_string());
+        }
+        (argv, gens, sources)
+    }
+}
+
 pub fn families(tier: &str) -> Vec<Box<dyn Family>> {
     let quick = tier == "quick";
     vec![
+        Box::new(CharacterSweep::new()),
+        Box::new(ArgvForms::new()),
         Box::new(AllStrings { alphabet: vec!['a', ' ', ',', '=', '\\'], max_len: if quick { 7 } else { 9 }, chunk_len: 4 }),
         Box::new(AllStrings { alphabet: vec!['a', ' ', ',', '=', '\\', 'b', '\t', 'é', '"'], max_len: if quick { 4 } else { 5 }, chunk_len: 2 }),
         Box::new(RoundTrip::new(if quick { 2 } else { 3 })),
